@@ -2,6 +2,7 @@
 generation for group runs, execution of real group members, TLC trace validation."""
 from __future__ import annotations
 
+import os
 import json
 import logging
 import multiprocessing as mp
@@ -38,7 +39,7 @@ def _cfg(name, *, members="{m1, m2}", parts="{p1, p2}", loglen=2, maxgen=2, maxc
     else:
         props = "\n".join(f"INVARIANT {i}" for i in INVS) + "\nSYMMETRY Sym"
         spec = "Spec"
-    p = tlc.SPEC / f"_gen_group_{name}.cfg"
+    p = tlc.SPEC / f"_gen_group_{name}_{os.getpid()}.cfg"
     p.write_text(MC_TMPL.format(spec=spec, members=members, parts=parts, loglen=loglen, maxgen=maxgen,
                                 maxcrash=maxcrash, props=props))
     return p.name
@@ -73,7 +74,7 @@ def run_mc(rep: Report, ctx, which: str):
             raise MachineryError(f"MC_GroupMembership/{name}: {r.get('violated')} timed_out={r.get('timed_out')}\n"
                                  + tlc.counterexample(r["output"], 3000))
         rep.add_mc(f"MC_GroupMembership/{name}", r, need_actions=None if kw.get("live") else need)
-    for p in tlc.SPEC.glob("_gen_group_*.cfg"):
+    for p in tlc.SPEC.glob(f"_gen_group_*_{os.getpid()}.cfg"):
         p.unlink()
 
 
